@@ -54,6 +54,19 @@ func c14cases(env *core.Env) []c14case {
 			cs = append(cs, c14case{shape, "random", i})
 		}
 	}
+	// a plain store that hands out the same record object for repeated look-ups of a path (handle histories: several
+	// handles then share one record, whose lazy loaders every one of them runs)
+	for i := 0; i < len(c02matrix); i += stride2 {
+		if c02matrix[i].Subject == "mem" {
+			cs = append(cs, c14case{"plain-cached", "c02", i})
+		}
+	}
+	for i := range c14directed {
+		cs = append(cs, c14case{"plain-cached", "directed", i})
+	}
+	for i := 0; i < env.Pick(100, 6000); i++ {
+		cs = append(cs, c14case{"plain-cached", "random", i})
+	}
 	return cs
 }
 
@@ -108,8 +121,9 @@ func newC14World(shape string, failAt int) (*c14world, error) {
 	h := &c14hook{failAt: -1}
 	w := &c14world{hook: h}
 	switch shape {
-	case "plain":
+	case "plain", "plain-cached":
 		p := kvs.NewPlain()
+		p.CacheRecords = shape == "plain-cached"
 		k, err := keyvalue.NewFS(p)
 		if err != nil {
 			return nil, err
@@ -118,6 +132,7 @@ func newC14World(shape string, failAt int) (*c14world, error) {
 		w.fs = k
 		w.fresh = func() (hackpadfs.FS, error) {
 			p.Hook = nil
+			p.DropCache()
 			return keyvalue.NewFS(p)
 		}
 	default:
@@ -239,6 +254,60 @@ func c14view(fsys hackpadfs.FS) string {
 		fmt.Fprintf(&sb, "%s %s %o %d %q\n", k, e.Kind, e.Mode, e.Size, e.Data)
 	}
 	return sb.String() + prob
+}
+
+func c14truncateAfterRejectedSave(cs c14case, steps []fsx.Step, at, k int, site string, res *core.CaseResult, wit any) {
+	op := steps[at]
+	path := ""
+	for i := 0; i < at; i++ {
+		switch st := steps[i]; {
+		case st.K == "Open" && st.Slot == op.Slot:
+			path = st.P
+		case st.K == "Rename" || st.K == "Remove" || st.K == "RemoveAll" || st.K == "H.Close" && st.Slot == op.Slot:
+			path = "" // the handle's name may be gone, or the handle closed: not this oracle's case
+		}
+	}
+	if path == "" {
+		return
+	}
+	fw, err := newC14World(cs.Shape, k)
+	if err != nil {
+		return
+	}
+	var fh fsx.Handles
+	if _, hung, _ := c14exec(fw, steps[:at+1], &fh); hung {
+		return
+	}
+	fw.hook.mu.Lock()
+	fw.hook.failAt = -1
+	fw.hook.mu.Unlock()
+	var tr, rd fsx.Result
+	size := int64(-1)
+	var stored []byte
+	var serr error
+	p := core.Recover(func() {
+		end := fsx.Exec(fw.fs, fsx.Step{K: "H.Seek", Slot: op.Slot, Off: 0, Whence: io.SeekEnd}, &fh, nil)
+		if !end.OK() {
+			return
+		}
+		size = end.N
+		tr = fsx.Exec(fw.fs, fsx.Step{K: "H.Truncate", Slot: op.Slot, Off: size}, &fh, nil)
+		rd = fsx.Exec(fw.fs, fsx.Step{K: "H.ReadAt", Slot: op.Slot, N: int(size), Off: 0}, &fh, nil)
+		fh.CloseAll()
+		fresh, ferr := fw.fresh()
+		if ferr != nil {
+			serr = ferr
+			return
+		}
+		stored, serr = hackpadfs.ReadFile(fresh, path)
+	})
+	if p != "" || size < 0 || !tr.OK() || tr.Skip || serr != nil {
+		return
+	}
+	res.Count("truncate_to_own_size_after_rejected_save", 1)
+	if int64(len(stored)) != size || (rd.OK() || rd.Err == "EOF") && int64(len(rd.Data)) == size && string(stored) != rd.Data {
+		res.Violate(fmt.Sprintf("C14|%s|H.Truncate|after-rejected-%s|reported-success", cs.Shape, op.K), fmt.Sprintf("[%s] %s was rejected by the store (%s failure at store call #%d); Truncate(%d), the size the handle has now, then reported success, but a fresh look-up finds %d bytes %q where the handle holds %q", cs.Shape, op, site, k, size, len(stored), clip60(string(stored)), clip60(rd.Data)), wit)
+	}
 }
 
 func c14run(env *core.Env, idx int) core.CaseResult {
@@ -386,6 +455,12 @@ func c14run(env *core.Env, idx int) core.CaseResult {
 					}
 				}
 			}
+		}
+		// a handle whose write was rejected, then Truncate to exactly the size the handle has now (fault-free): if that
+		// reports success, the store holds what the handle holds ("already this size" is true of the handle, not of the store)
+		if at < len(results) && at < len(steps) && !results[at].OK() && results[at].Panic == "" && (op.K == "H.Write" || op.K == "H.WriteAt" || op.K == "H.Chmod" || op.K == "H.Chtimes") && w.hook.site == "Set" {
+			// (only when the store refused the Set itself: a failed lazy load leaves the handle without contents of its own)
+			c14truncateAfterRejectedSave(cs, steps, at, k, w.hook.site, &res, wit)
 		}
 		// the faulted FS's view must equal a fresh FS over the same store
 		var fresh hackpadfs.FS
